@@ -48,6 +48,7 @@ def run(tier, seed, ev):
                 ex2 = [arc.x_name(full), arc.x_perm(0o120755)]
                 cases.append(arc.Member(level=lvl, method=b"-lhd-", name=b"", payload=b"", os=ord("U"), exts=ex2).bytes())
     cases += HG.identity_cross_product()
+    cases += HG.level0_area_lengths()
     # two stored strings in one header (in-header name with a directory part next to path / file name headers, both orders)
     import c11
     small = [bytes(t) for L in range(0, 3) for t in itertools.product([ord("."), ord("/"), ord("\\"), ord("a"), ord("B")], repeat=L)]
